@@ -48,7 +48,7 @@ check('C05',
       'nodes, window): every feasible point of the problem the model builder returns keeps the physical level in [0,size], ends at '
       'the end level and respects rate x step length (C05_level_within_size_at_every_step: for a storage the constructor accepts, i.e. end level '
       'within [0,size], at every step including the last; the builder refuses the others like the implementation since fix efdd1c0); '
-      'C05_no_simultaneous for the binary mode rows. The storage builder is compared '
+      'C05_no_simultaneous for the binary mode rows; C05_holding_duration (start level 0, no inflow: every window longer than the duration contains a step with level <= 0). The storage builder is compared '
       'with Storage.setup_optim_problem (c, l, u, rows, mapping; incl. no_simult, max_store_duration, coarse frequency, windows, '
       'price), Storage.fill_level with the model level at box points; on every solved portfolio the physical level, rates, end level, '
       'reported fill level / charge / discharge, exclusivity and holding duration are recomputed from the returned x.',
